@@ -27,6 +27,9 @@ func (g *pgen) corpus(focus string, start int) []*ConvSpec {
 	if focus == "c12" {
 		return g.corpusC12(start)
 	}
+	if focus == "c02" {
+		return g.corpusC02(start)
+	}
 	if focus != "c11" {
 		return nil
 	}
@@ -263,7 +266,9 @@ func (g *pgen) corpusC04(start int) []*ConvSpec {
 	un := &Ty{K: "struct", Pkg: 1, Fields: []Field{{"N", i}}}
 	s1 := g.newNamed(1, &Ty{K: "struct", Pkg: 1, Fields: []Field{{"L", tSlice(i)}, {"M", tMap(str, i)}, {"U", un}, {"E", tSlice(un)}}}, "S")
 	t1 := g.newNamed(1, &Ty{K: "struct", Pkg: 1, Fields: []Field{{"L", tPtr(tSlice(i))}, {"M", tPtr(tMap(str, i))}, {"U", tPtr(un)}, {"E", tSlice(tPtr(un))}}}, "T")
-	for _, pair := range [][2]*Ty{{tPtr(tNamed(s1)), tPtr(tNamed(t1))}, {tSlice(un), tSlice(tPtr(un))}, {tSlice(tNamed(s1)), tSlice(tNamed(t1))}, {tNamed(s1), tNamed(t1)}} {
+	for _, pair := range [][2]*Ty{{tPtr(tNamed(s1)), tPtr(tNamed(t1))}, {tSlice(un), tSlice(tPtr(un))}, {tSlice(tNamed(s1)), tSlice(tNamed(t1))}, {tNamed(s1), tNamed(t1)},
+		// map values / keys: the loop variables must not be referenced either (shared by all iterations before Go 1.22)
+		{tMap(str, tSlice(i)), tMap(str, tPtr(tSlice(i)))}, {tMap(str, un), tMap(str, tPtr(un))}, {tMap(tArr(2, i), i), tMap(tPtr(tArr(2, i)), i)}} {
 		c := &ConvSpec{Name: fmt.Sprintf("C%d", start+len(out)), Lines: []string{"skipCopySameType"}}
 		c.Methods = []*MethodSpec{{Name: "M0", Src: pair[0], Tgt: pair[1], Fields: map[string]*fieldSet{}}}
 		out = append(out, c)
@@ -315,6 +320,34 @@ func (g *pgen) corpusC12(start int) []*ConvSpec {
 		m1 := &MethodSpec{Name: "M1", Src: tPtr(tNamed(s)), Tgt: tPtr(tNamed(t)), Err: true, Fields: map[string]*fieldSet{}}
 		c.Methods = []*MethodSpec{m0, m1}
 		out = append(out, c)
+	}
+	return out
+}
+
+// corpusC02: fixed arrays of every basic element kind converted to slices at the positions goverter builds into a
+// fresh variable (method argument, map value, pointee, named array through a sub-method) and byte slices at every
+// position: length, order and values are preserved whatever the element type is.
+func (g *pgen) corpusC02(start int) []*ConvSpec {
+	var out []*ConvSpec
+	add := func(src, tgt *Ty) {
+		c := &ConvSpec{Name: fmt.Sprintf("C%d", start+len(out))}
+		c.Methods = []*MethodSpec{{Name: "M0", Src: src, Tgt: tgt, Fields: map[string]*fieldSet{}}}
+		out = append(out, c)
+	}
+	str := tBasic(bkString)
+	for _, k := range []int{bkUint8, bkInt, bkString, bkBool, bkInt64, bkFloat64} {
+		el := tBasic(k)
+		add(tArr(3, el), tSlice(el))
+		add(tMap(str, tArr(2, el)), tMap(str, tSlice(el)))
+		add(tPtr(tArr(2, el)), tPtr(tSlice(el)))
+		add(tSlice(el), tSlice(el))
+		if k == bkUint8 || k == bkInt {
+			na := g.newNamed(1, tArr(4, el), "NA")
+			s := g.newNamed(1, &Ty{K: "struct", Pkg: 1, Fields: []Field{{"D", tPtr(tNamed(na))}, {"E", tSlice(tSlice(el))}, {"F", tMap(str, tPtr(tSlice(el)))}}}, "S")
+			t := g.newNamed(1, &Ty{K: "struct", Pkg: 1, Fields: []Field{{"D", tPtr(tSlice(el))}, {"E", tSlice(tSlice(el))}, {"F", tMap(str, tPtr(tSlice(el)))}}}, "T")
+			add(tNamed(na), tSlice(el))
+			add(tNamed(s), tNamed(t))
+		}
 	}
 	return out
 }
